@@ -22,7 +22,7 @@ CONTRACTS = {
                                           "why": "BOOL: columns whose bounds are (0,1); INT: the others (a partition)"},
     "variable_ndarray.boolean_variable_indices": {"props": ["C20"], "why": "= variable_indices(BOOL)"},
     "variable_ndarray.integer_variable_indices": {"props": ["C20"], "why": "= variable_indices(INT)"},
-    "variable_ndarray.construct": {"props": ["C14", "C15", "C20"],
+    "variable_ndarray.construct": {"types": {"dtype": ["type"]}, "props": ["C14", "C15", "C20"],
                                    "why": "per column: given value, else callable default, else lower bound (int dtype) / nan"},
     "ge_polyhedron.__new__": {"props": ["C01", "C11", "C17", "C19", "C20"], "why": "forwards to variable_ndarray.__new__"},
     "ge_polyhedron.A": {"props": ["C01", "C11", "C12", "C14", "C15", "C19", "C20"],
